@@ -1836,6 +1836,46 @@ fn search_parse_depth(ob: &str) {
     emit(ob, found.is_some(), explored, found.unwrap_or(Value::Null));
 }
 
+// C16 (server side of socket activation), child process: descriptor 3 (and 4) are listening unix sockets, the activation environment is set as asked, then
+// Listener::new is called with an address it could never bind: prints ACTIVATED / OWN / ERR
+fn activation_server_probe(fds: &str, pid_mode: &str, names: &str) -> i32 {
+    use std::os::unix::io::AsRawFd;
+    let dir = std::env::temp_dir().join(format!("vx-actsrv-{}", std::process::id()));
+    let _ = std::fs::create_dir_all(&dir);
+    let a = std::os::unix::net::UnixListener::bind(dir.join("a")).unwrap();
+    let b = std::os::unix::net::UnixListener::bind(dir.join("b")).unwrap();
+    extern "C" { fn dup2(a: i32, b: i32) -> i32; }
+    unsafe { dup2(a.as_raw_fd(), 3); dup2(b.as_raw_fd(), 4); }
+    std::env::set_var("LISTEN_FDS", fds);
+    std::env::set_var("LISTEN_PID", if pid_mode == "own" { std::process::id().to_string() } else { "1".to_string() });
+    if names == "-" { std::env::remove_var("LISTEN_FDNAMES"); } else { std::env::set_var("LISTEN_FDNAMES", names); }
+    let r = varlink::Listener::new("unix:/nonexistent-directory-for-the-probe/sock");
+    let out = match &r { Ok(varlink::Listener::UNIX(_, true)) | Ok(varlink::Listener::TCP(_, true)) => "ACTIVATED", Ok(_) => "OWN", Err(_) => "ERR" };
+    println!("{}", out);
+    std::mem::forget(r);
+    let _ = std::fs::remove_dir_all(&dir);
+    0
+}
+fn search_activation_server(ob: &str) {
+    let me = std::env::current_exe().unwrap();
+    let mut found = None;
+    let mut explored = 0;
+    // (LISTEN_FDS, LISTEN_PID names us?, LISTEN_FDNAMES, activation expected)
+    for (fds, pid, names, want) in [("1", "own", "-", true), ("1", "own", "varlink", true), ("1", "own", "org.example.socket", true), ("1", "own", "a:b", true), ("1", "own", "", true),
+                                    ("1", "other", "varlink", false), ("1", "other", "-", false), ("2", "own", "x:varlink", true), ("2", "own", "varlink:x", true), ("2", "own", "x:y", false),
+                                    ("2", "other", "x:varlink", false), ("0", "own", "varlink", false), ("x", "own", "varlink", false)] {
+        explored += 1;
+        let o = match std::process::Command::new(&me).arg("--activation-server-probe").arg(fds).arg(pid).arg(names).stderr(std::process::Stdio::null()).output() { Ok(o) => o, Err(_) => continue };
+        let got = String::from_utf8_lossy(&o.stdout).trim().to_string();
+        let activated = got == "ACTIVATED";
+        if activated != want && found.is_none() {
+            found = Some(json!({"LISTEN_FDS": fds, "LISTEN_PID": if pid == "own" { "this process" } else { "another process" }, "LISTEN_FDNAMES": if names == "-" { "<unset>" } else { names },
+                "Listener::new": got, "expected": if want { "the listener adopts the activation socket" } else { "activation is not honoured" }}));
+        }
+    }
+    emit(ob, found.is_some(), explored, found.unwrap_or(Value::Null));
+}
+
 // C16 (activation clause): `Connection::with_activate(<real varlink-certification binary> --varlink=$VARLINK_ADDRESS)` followed by one GetInfo call, run in a
 // child process of its own process group (a hang between fork and exec would otherwise leave a stuck process behind): it must answer within 10 s.
 fn activation_probe(cmd: &str) -> i32 {
@@ -2307,6 +2347,10 @@ fn search_generate(obs: &[&str]) {
 }
 
 fn main() {
+    if std::env::args().nth(1).as_deref() == Some("--activation-server-probe") {
+        let a: Vec<String> = std::env::args().collect();
+        std::process::exit(activation_server_probe(&a[2], &a[3], &a[4]));
+    }
     if std::env::args().nth(1).as_deref() == Some("--parse-probe") {
         std::process::exit(parse_probe(std::env::args().nth(2).and_then(|d| d.parse().ok()).unwrap_or(1), &std::env::args().nth(3).unwrap_or_default()));
     }
@@ -2358,6 +2402,8 @@ fn main() {
     if !idl.is_empty() { search_idl(&idl); }
     let ad: Vec<&str> = ["C16.scheme", "C16.params", "C16.activation", "C16.no-panic"].iter().cloned().filter(|o| m(o)).collect();
     if !det && !ad.is_empty() { search_address(&ad); }
+    if !det && m("C16.activation-honoured") { search_activation_server("C16.activation-honoured"); }
+    if !det && m("C16.activation") { search_activation_server("C16.activation"); }
     if m("C03.info") { search_info_dups("C03.info"); }
     let cli: Vec<&str> = ["C20.split", "C20.status", "C20.print", "C20.no-panic"].iter().cloned().filter(|o| m(o)).collect();
     if !det && !cli.is_empty() { search_cli(&cli); }
